@@ -3,7 +3,7 @@ import time
 
 CONTRACT_MODULES = ['c19_sampling', 'c19_partition']
 LEVEL = 'other'
-TRUSTED = ['pyvc (VC generator, Python semantics of the stated subset) + libext c19_sets / c19_listrep / c19_modglobal / c19_loopfix',
+TRUSTED = ['pyvc (VC generator, Python semantics of the stated subset) + libext c19_sets / c19_listrep / c19_modglobal (scoped to C19)',
            'z3 5.1.0 / cvc5',
            'LIBSPEC pandas (pyvc/libext/c19_pandas.py): column selection, masks, filter, copy, column assignment, '
            'sample(n, replace=False) and concat are free constructors with projections; sample returns a fresh table of n '
